@@ -251,7 +251,7 @@ def run_batch(batch_name, seed=0, keep=True, retry=True):
                     skip = True
                     continue
                 extra2.append(a)
-            js2, diags2, dt2, _ = run_verus(path, extra2 + ['--rlimit', str(getattr(mod, 'RETRY_RLIMIT', 40)), '--smt-option', f'smt.random_seed={seed * 7 + k + 1}'], multiple_errors=me)
+            js2, diags2, dt2, _ = run_verus(path, extra2 + ['--rlimit', str(getattr(mod, 'RETRY_RLIMIT', 120)), '--smt-option', f'smt.random_seed={seed * 7 + k + 1}'], multiple_errors=me)
             e2, t2, l2, _ = analyse(text, fnmap, js2, diags2)
             if t2 or js2 is None:
                 # a retry that did not even get to verification proves nothing: everything is still failing
